@@ -64,6 +64,11 @@ extern int64_t g_now;                /* the virtual clock (verified: high_resolu
 static inline int64_t clock_now(void) { return g_now; }
 #endif
 
+/* padding targets: goto-instrument --dfcc specialises its write-set loops for the largest assigns clause it sees;
+ * objects allocated by is_fresh in the requires clause also enter the write set, so every contract lists these */
+extern char vf_pad0, vf_pad1, vf_pad2, vf_pad3, vf_pad4, vf_pad5;
+#define VF_PAD vf_pad0, vf_pad1, vf_pad2, vf_pad3, vf_pad4, vf_pad5
+
 /* --------------------------------------------------- ghost indices (pointwise) */
 extern size_t G_i;                   /* arbitrary, never assigned by code under proof */
 extern size_t G_j;
